@@ -704,6 +704,7 @@ def check_sync(chk, pid):
         chk.cov["search"] = "theorem file or build broke: case set enlarged to the thorough scope"
     cases, scope = sync_cases(pid, tier, chk.rng)
     gal, H, nontrivial = [], new_hist(), set()
+    seen_sigs = set()
     for (h, v0) in cases:
         rec, probe = run_sync(kind, h, v0)
         chk.cov["evaluations"] += 1
@@ -711,6 +712,9 @@ def check_sync(chk, pid):
         if is_nontrivial(rec):
             nontrivial.add(hist_key(h) + repr(v0))
         for sig, detail in oracle_sync(kind, h, v0, rec, probe):
+            if sig in seen_sigs:        # one shrunk witness per signature (shrinking is the expensive part)
+                continue
+            seen_sigs.add(sig)
             def still(hh, _sig=sig):
                 r2, p2 = run_sync(kind, hh, v0)
                 return any(s == _sig for s, _ in oracle_sync(kind, hh, v0, r2, p2))
@@ -921,6 +925,7 @@ def check_replay(chk):
         chk.cov["search"] = "theorem file or build broke: case set enlarged to the thorough scope"
     cases, scope = replay_cases(tier, chk.rng)
     gal, H, nontrivial, kept = [], new_hist(), set(), []
+    seen_sigs = set()
     H.update({"spinning_discarded": 0, "buffer_size": {}, "window": {}, "age_equals_window": 0,
               "replayed_values": 0})
     for (h, bs, w) in cases:
@@ -942,6 +947,9 @@ def check_replay(chk):
         if any(len(tr.view[o]) >= 2 for o in tr.observers) and is_nontrivial(rec):
             nontrivial.add(hist_key(h) + repr((bs, w)))
         for sig, detail in oracle_replay(h, bs, w, rec, probe):
+            if sig in seen_sigs:
+                continue
+            seen_sigs.add(sig)
             def still(hh, _sig=sig):
                 r2, p2, ok2 = run_replay(hh, bs, w)
                 return ok2 and any(s == _sig for s, _ in oracle_replay(hh, bs, w, r2, p2))
@@ -976,6 +984,9 @@ def check_replay(chk):
         if any(len(tr.view[o]) >= 2 for o in tr.observers) and is_nontrivial(rec):
             nontrivial_sync.add(hist_key(h) + repr((bs, w)))
         for sig, detail in oracle_replay(h, bs, w, rec, probe, sync=True):
+            if sig in seen_sigs:
+                continue
+            seen_sigs.add(sig)
             def still(hh, _sig=sig):
                 r2, p2, ok2 = run_replay_sync(hh, bs, w)
                 return ok2 and any(s == _sig for s, _ in oracle_replay(hh, bs, w, r2, p2, sync=True))
